@@ -992,6 +992,12 @@ func (p c12) Exec(cl string) (string, []Fail) {
 		return p.execSheetB(f[1:])
 	case "wk":
 		return p.execWk(f[1:])
+	case "conc":
+		return p.execConc(f[1:], false)
+	case "race":
+		if len(f) > 1 && f[1] == "conc" {
+			return p.execConc(f[2:], true)
+		}
 	}
 	return "bad-op", nil
 }
@@ -2018,4 +2024,6 @@ func (c12) Gen(rng *rand.Rand, tier string, emit func(string)) {
 	}
 	// the sheets from their bytes, worker constructions on one library object (c12_bytes.go)
 	c12GenBytes(rng, tier, emit)
+	// demultiplexing from several goroutines sharing one library (c12_conc.go); LAST: the cases above keep their PRNG draws
+	c12GenConc(rng, tier, emit)
 }
